@@ -1,16 +1,31 @@
+import math
 import operator
+import struct
 from .transform import BlockPass
 from .. import ir
 
 
+class Unfoldable(Exception):
+    """The operation has no compile time result (e.g. division by zero)"""
+
+
 def cast(value, ty):
     """Cast a value to the given type"""
+    if isinstance(value, float) and not isinstance(ty, ir.FloatingPointTyp):
+        if math.isnan(value) or math.isinf(value):
+            raise Unfoldable()
     if isinstance(ty, ir.PointerTyp):
         return int(value)
     elif ty.is_integer:
         return correct(int(value), ty)
     else:
         assert isinstance(ty, ir.FloatingPointTyp)
+        value = float(value)
+        if ty.bits == 32 and not (math.isnan(value) or math.isinf(value)):
+            try:
+                value = struct.unpack("f", struct.pack("f", value))[0]
+            except OverflowError:
+                raise Unfoldable()
         return value
 
 
@@ -28,6 +43,26 @@ def enhance(f):
     return lambda ty, a, b: correct(f(a, b), ty)
 
 
+def remainder(ty, a, b):
+    """Remainder of division truncating towards zero (like the hardware)"""
+    if b == 0:
+        raise Unfoldable()
+    value = abs(a) % abs(b)
+    return correct(-value if a < 0 else value, ty)
+
+
+def shift_left(ty, a, b):
+    if not 0 <= b < ty.bits:
+        raise Unfoldable()
+    return correct(a << b, ty)
+
+
+def shift_right(ty, a, b):
+    if not 0 <= b < ty.bits:
+        raise Unfoldable()
+    return correct(a >> b, ty)
+
+
 class ConstantFolder(BlockPass):
     """Try to fold common constant expressions"""
 
@@ -37,9 +72,9 @@ class ConstantFolder(BlockPass):
             "+": enhance(operator.add),
             "-": enhance(operator.sub),
             "*": enhance(operator.mul),
-            "%": enhance(operator.mod),
-            "<<": enhance(operator.lshift),
-            ">>": enhance(operator.rshift),
+            "%": remainder,
+            "<<": shift_left,
+            ">>": shift_right,
         }
 
     def is_const(self, value):
@@ -76,6 +111,14 @@ class ConstantFolder(BlockPass):
         else:  # pragma: no cover
             raise NotImplementedError(str(value))
 
+    @staticmethod
+    def add_consts(a, b):
+        """Add two constants of the same type, with wrap around"""
+        value = a.value + b.value
+        if a.ty.is_integer:
+            value = correct(value, a.ty)
+        return value
+
     def on_block(self, block):
         instructions = list(block)
         count = 0
@@ -86,11 +129,19 @@ class ConstantFolder(BlockPass):
 
             if self.is_const(instruction):
                 # Now we can replace x = (4+5) with x = 9
-                cnst = self.eval_const(instruction)
+                try:
+                    cnst = self.eval_const(instruction)
+                except Unfoldable:
+                    continue
                 block.insert_instruction(cnst, before_instruction=instruction)
                 instruction.replace_by(cnst)
                 count += 1
             else:
+                if isinstance(instruction, ir.Binop) and isinstance(
+                    instruction.ty, ir.FloatingPointTyp
+                ):
+                    # Floating point arithmetic is not associative
+                    continue
                 if (
                     isinstance(instruction, ir.Binop)
                     and isinstance(instruction.a, ir.Binop)
@@ -100,10 +151,15 @@ class ConstantFolder(BlockPass):
                     and self.is_const(instruction.b)
                 ):
                     # Now we can replace x = (y+5)+5 with x = y + 10
-                    a = self.eval_const(instruction.a.b)
-                    b = self.eval_const(instruction.b)
+                    try:
+                        a = self.eval_const(instruction.a.b)
+                        b = self.eval_const(instruction.b)
+                    except Unfoldable:
+                        continue
                     assert a.ty is b.ty
-                    cn = ir.Const(a.value + b.value, "new_fold", a.ty)
+                    cn = ir.Const(
+                        self.add_consts(a, b), "new_fold", a.ty
+                    )
                     block.insert_instruction(
                         cn, before_instruction=instruction
                     )
@@ -121,10 +177,15 @@ class ConstantFolder(BlockPass):
                     and self.is_const(instruction.b)
                 ):
                     # Now we can replace x = (y-5)-5 with x = y - 10
-                    a = self.eval_const(instruction.a.b)
-                    b = self.eval_const(instruction.b)
+                    try:
+                        a = self.eval_const(instruction.a.b)
+                        b = self.eval_const(instruction.b)
+                    except Unfoldable:
+                        continue
                     assert a.ty is b.ty
-                    cn = ir.Const(a.value + b.value, "new_fold", a.ty)
+                    cn = ir.Const(
+                        self.add_consts(a, b), "new_fold", a.ty
+                    )
                     block.insert_instruction(
                         cn, before_instruction=instruction
                     )
